@@ -239,7 +239,7 @@ class ToReltime(_TrackFn):
 @contract
 class FixEndOfTrack(_TrackFn):
     target = T + 'fix_end_of_track'
-    properties = ('C12', 'C07', 'C08')
+    properties = ('C12', 'C07', 'C08', 'C16')
     loops = {(T + 'fix_end_of_track', 0): _FixLoop()}
 
     def ensures(self, h, cfg, a, r):
